@@ -227,6 +227,9 @@ fn corrupt(cx: &mut Cx, holder: NodeId, key: Arc<KeyMat>, issued: Arc<Cred>, sin
     { let mut d = (*issued).clone(); std::mem::swap(&mut d.e, &mut d.s); send(cx, d, "sig_field:e<->s".into()); }
     { let mut d = (*issued).clone(); std::mem::swap(&mut d.s, &mut d.v); send(cx, d, "sig_field:s<->v".into()); }
     { let mut d = (*issued).clone(); d.v = Integer::from(nmod - &d.v); send(cx, d, "sig_field:v->N-v".into()); }
+    // the same residue, another integer: v + N and v - N (v only enters as the base of v^e)
+    { let mut d = (*issued).clone(); d.v += nmod; send(cx, d, "sig_field:v+N".into()); }
+    { let mut d = (*issued).clone(); d.v -= nmod; send(cx, d, "sig_field:v-N".into()); }
     { let mut d = (*issued).clone(); d.s += Integer::from(&d.e); send(cx, d, "sig_field:s+e".into()); }
     // other bases / other key
     { let mut d = (*issued).clone(); d.bases = key.bases2.0[..n].to_vec(); send(cx, d, "misroute_bases".into()); }
